@@ -614,6 +614,11 @@ func (env *specEnv) binary(n *ast.BinaryExpr) (string, types.Type, error) {
 		if real {
 			return app("/", xt, yt), rt, nil
 		}
+		if !isNumeral(yt) {
+			q := app("tdivv", xt, yt)
+			env.e.assume(implies(and(app(">=", xt, "0"), app(">", yt, "0")), and(app("<=", app("*", q, yt), xt), app("<", xt, app("+", app("*", q, yt), yt)), app("<=", "0", q), app("<=", q, xt))))
+			return q, rt, nil
+		}
 		return app("tdiv", xt, yt), rt, nil
 	case token.REM:
 		return app("tmod", xt, yt), rt, nil
